@@ -63,7 +63,8 @@ def kwargs(state):
         kw.update(alpha1=a1, beta1=b1, alpha2=a2, beta2=b2)
     # documented dimensional defaults made explicit (so that a change of units can rescale them)
     if fam == "Kenamond2":
-        kw.setdefault("dets", [10.0, 5.0, -5.0, -10.0]); kw.setdefault("t_d", [2.0, 1.0, 0.0, 1.0, 2.0])
+        sh = kw.pop("tshift", 0.0)
+        kw.setdefault("dets", [10.0, 5.0, -5.0, -10.0]); kw.setdefault("t_d", [x + sh for x in (2.0, 1.0, 0.0, 1.0, 2.0)])
     if fam == "EHEP":
         kw.setdefault("xmax", 10.0); kw.setdefault("tmax", 10.0)
     if fam.startswith("Riemann"):
